@@ -417,8 +417,8 @@ func init() {
 // ---- sync.Map: a plain map keyed by interface values (atomicity assumed) ----
 
 func (e *Engine) syncMapOf(p *PtrV) *MapData {
-	if len(p.T) != 1 || !p.T[0].G.IsTrue() {
-		panic(unsupported("sync.Map reached through an ambiguous pointer"))
+	if len(p.T) != 1 {
+		panic(unsupported(fmt.Sprintf("sync.Map reached through an ambiguous pointer (%d targets)", len(p.T))))
 	}
 	k := fmt.Sprintf("%d%s", p.T[0].Obj.id, pathStr(p.T[0].Path))
 	if e.syncMaps == nil {
